@@ -196,11 +196,12 @@ impl ArchiveGroupBuilder {
         // Calculate data size for chunking
         let entry_count = entries.len();
         let bytes_per_entry = 16 + 6 + 4; // key + offset + size
-        let total_data_size = entry_count * bytes_per_entry;
-        let chunk_count = total_data_size.div_ceil(0x1000); // 4KB chunks
+        // Each 4KB chunk holds a whole number of entries (the rest is padding),
+        // so the chunk count follows from the entry count, not from the byte total
+        let entries_per_chunk = 0x1000 / bytes_per_entry;
+        let chunk_count = entry_count.div_ceil(entries_per_chunk);
 
         // Write entries in chunks, collecting last keys for TOC and block hashes
-        let entries_per_chunk = 0x1000 / bytes_per_entry;
         let hash_bytes: u8 = 8;
         let mut toc_keys: Vec<Vec<u8>> = Vec::with_capacity(chunk_count);
         let mut block_hashes: Vec<Vec<u8>> = Vec::with_capacity(chunk_count);
